@@ -282,6 +282,7 @@ struct decl {
 			/* alignment of object storage (may be stricter than type requires) */
 			int align;
 			enum storageduration storage;
+			struct location loc;
 		} obj;
 		struct {
 			/* the function might have an "inline definition" (C11 6.7.4p7) */
